@@ -506,6 +506,26 @@ pub fn gen_c04<W: Write>(out: &mut W, thorough: bool, seed: u64) {
             }
         }
     }
+    // every week mask that leaves a working day, as a plain calendar and as a one-member combination: the
+    // searches step one day at a time whatever the weekend looks like (a masked Saturday before a working Sunday, ...)
+    for mbits in 0..127u32 {
+        let id = 20000 + (mbits as usize) * 2;
+        let mask: String = (0..7).map(|i| if (mbits >> i) & 1 == 1 { '1' } else { '0' }).collect();
+        let lo = r.range(10000, 20000);
+        let hi = lo + 400;
+        let mut hols: Vec<i64> = (0..r.range(0, 12)).map(|_| r.range(lo, hi)).collect();
+        hols.sort();
+        hols.dedup();
+        emit_cal(out, id, &GenCal { mask, hols });
+        writeln!(out, "ucal {} 1 {} -", id + 1, id).unwrap();
+        for _ in 0..(if thorough { 200 } else { 40 }) {
+            let d = biased_date(&mut r, lo, hi);
+            for m in MODS {
+                writeln!(out, "roll {} {} {} {}", id, d, m, r.below(2)).unwrap();
+                writeln!(out, "roll {} {} {} {}", id + 1, d, m, r.below(2)).unwrap();
+            }
+        }
+    }
     if thorough {
         // every date of the supported range on every named combination
         for (i, _) in COMBOS.iter().enumerate() {
@@ -535,6 +555,17 @@ pub fn gen_c05<W: Write>(out: &mut W, thorough: bool, seed: u64) {
     for i in 0..n_pairs {
         let (h, lo, hi) = if i % 5 == 4 {
             (200 + (i / 5) % COMBOS.len(), 2000, HI - 2000)
+        } else if i % 5 == 3 {
+            // a plain calendar with any week mask that leaves a working day
+            let mbits = (i * 37 + 11) % 127;
+            let mask: String = (0..7).map(|k| if (mbits >> k) & 1 == 1 { '1' } else { '0' }).collect();
+            let lo = r.range(10000, 20000);
+            let hi = lo + 1500;
+            let mut hols: Vec<i64> = (0..r.range(0, 40)).map(|_| r.range(lo, hi)).collect();
+            hols.sort();
+            hols.dedup();
+            emit_cal(out, 1000 + i * 10, &GenCal { mask, hols });
+            (1000 + i * 10, lo, hi)
         } else {
             emit_random_setup(out, &mut r, 1000 + i * 10)
         };
